@@ -83,12 +83,15 @@ fn err_tok(xs: &Xstate, t: &Toks, src: &str) -> String {
     }
 }
 
-pub fn emit_program(ctx: &mut Ctx, base: &Xstate, src: &str) {
+pub fn emit_program(ctx: &mut Ctx, base: &Xstate, src: &str) { emit_program_lim(ctx, base, src, LIMIT, true) }
+
+/// the same with the instruction limit `base` was given (deep recursion needs more than the usual budget)
+pub fn emit_program_lim(ctx: &mut Ctx, base: &Xstate, src: &str, limit: usize, structural: bool) {
     let t = match lex_all(src) { Some(t) => t, None => { ctx.tag("skipped:lex-error"); return; } };
     let setup_common = {
         let d = base.verif_dump();
         format!("toks={} dict={} heap=v({}) lim={}/-/- view=full", t.text.join("|"), dict_for(base, &t.words),
-            d.heap.iter().map(canon::cell).collect::<Vec<_>>().join(","), LIMIT)
+            d.heap.iter().map(canon::cell).collect::<Vec<_>>().join(","), limit)
     };
     // --- build only
     let mut xs = base.clone();
@@ -125,7 +128,7 @@ pub fn emit_program(ctx: &mut Ctx, base: &Xstate, src: &str) {
     ctx.case(format!("C01 eval {}", setup_common), answer);
     // --- structural reading: actual bytecode == compileS (parseS source), evalS == VM (decided by the model;
     //     `unsupported` when the program is outside the structured fragment)
-    if build_answer.starts_with("ok") {
+    if build_answer.starts_with("ok") && structural {
         ctx.case(format!("C01 struct {}", setup_common), if timed_out { "tv=same sem=timeout".into() } else { "tv=same sem=same".into() });
     }
 }
@@ -160,6 +163,23 @@ pub fn run(ctx: &mut Ctx) {
         let src = crate::progen::shape(&mut ctx.rng);
         ctx.tag("shape:redeclare/relocal");
         emit_program(ctx, &base, &src);
+    }
+    // recursion a thousand and more frames deep is just recursion: no hidden bound on the return stack (a larger
+    // instruction budget than the other programs get; the model's return stack is a list)
+    {
+        let mut deep = Xstate::boot().unwrap();
+        deep.intercept_stdout(true);
+        deep.set_insn_limit(Some(40000)).unwrap();
+        for _ in 0..4 {
+            let d = *ctx.rng.pick(&[900, 1023, 1024, 1025, 1500, 2100, 3000]);
+            let src = if ctx.rng.bool() { format!(": down dup 0 > if 1 - down then ; {} down", d) } else { format!(": up local n n {} < if n 1 + up else n then ; 0 up", d) };
+            ctx.tag("shape:deep-recursion");
+            // (not to the structural evaluator of the driver: its recursion fuel is calibrated for the usual budget)
+            emit_program_lim(ctx, &deep, &src, 40000, false);
+            let mut x = deep.clone();
+            let r = crate::guarded(|| x.eval(&src));
+            ctx.check(matches!(r, Some(Ok(()))) && x.data_depth() == 1, || format!("C01 `{}`", src), || "Ok, one value".into(), || format!("{:?} depth {}", r.map(|r| r.is_ok()), x.data_depth()));
+        }
     }
     // oracle 2: zero-trip counted loops leave the stack as `drop drop` does; the body never runs
     for _ in 0..(ctx.n / 4).max(50) {
